@@ -375,7 +375,12 @@ pub fn gen_history(rng: &mut Rng, m: &Mix) -> Value {
         let vi = rng.idx(vals.len());
         let f = flav(rng);
         let mut st;
-        if x < m.w_write {
+        let earlier: Vec<&Value> = steps.iter().filter(|s: &&Value| s["op"] == "write").collect();
+        if x < m.w_write && !earlier.is_empty() && rng.chance(1, 10) {
+            // an earlier write issued again exactly as it was (same key, data, options, explicit time): an
+            // idempotent retry, possibly through another flavour
+            st = (*rng.pick(&earlier)).clone();
+        } else if x < m.w_write {
             st = write_step(rng, Some(ki), vi, vlen(&vals, vi), &m.wcfg);
         } else {
             x -= m.w_write;
